@@ -237,4 +237,52 @@ theorem api_decrypt_200_only_by_key_id (s : Store) (r : ApiReq) (m : JweMsg) (k 
 example : apiDecryptJwe (fun _ => true) apiCfg "/k" { refs := [("did:a#1", ⟨"n1", "1"⟩)], backend := [("n1", 7)], nextKey := 8 }
     { flds := [("Message", .present)] } (.jwe "did:a#1" 7) = .plain 7 := by decide
 
+/-! ## DPoP proofs: the `jwk` header is ALWAYS the public key of the key that signs -/
+
+/-- `(*DPoP).Sign` derives the `jwk` header from the signing key and writes it into the headers UNCONDITIONALLY, at
+    the top level of the function, before `jwt.Sign` uses those headers; `Crypto.SignDPoP` fetches the key by kid and
+    passes that key to `Sign` (token by value, headers shared). -/
+theorem fact_dpop_sign_overwrites_jwk :
+    C03.dpopSignStmts = ["if:;t.raw != \"\"{1}", "assign:publicKeyJWK, err := jwk.FromRaw(key.Public())", "if:;err != nil{1}",
+      "assign:_ = publicKeyJWK.Set(jwk.AlgorithmKey, alg)", "assign:_ = t.Headers.Set(jws.JWKKey, publicKeyJWK)",
+      "assign:sig, err := jwt.Sign(t.Token, jwt.WithKey(alg, key, jws.WithProtectedHeaders(t.Headers)))", "if:;err != nil{1}",
+      "assign:t.raw = string(sig)", "assign:t.Kid = kid", "return:return t.raw, nil"] ∧
+    C03.signDPoPShape = ["param:ctx:context.Context", "param:token:dpop.DPoP", "param:kid:string",
+      "call:client.getPrivateKey(ctx,kid)", "call:token.Sign(kid,privateKey,alg)"] := by decide
+
+/-- **dpop_jwk_is_signing_key.** For EVERY key store state, EVERY header state the token starts with (including a
+    `jwk` header — public or PRIVATE — that the caller put there, or the one a previous signing left) and EVERY sequence
+    of kids the same token is signed for: each proof that is issued for kid K is signed by the key pair the reference
+    row of K names, and its `jwk` header is exactly the public JWK of THAT key pair — never a key material carrying
+    value, never the key of an earlier call. -/
+theorem dpop_jwk_is_signing_key (s : Store) (h0 : Headers) (kids : List String) (kid : String) (k : Nat) (hdr : Headers)
+    (hm : (kid, .ok (k, hdr)) ∈ signDPoPSeq valid s h0 kids) :
+    signKey valid s kid = .ok k ∧ hget hdr "jwk" = some (pubJwk k) ∧
+    (∃ ref, s.ref kid = some ref ∧ valid ref.keyName = true ∧ s.key ref.keyName = some k) := by
+  induction kids generalizing h0 with
+  | nil => cases hm
+  | cons kid' rest ih =>
+    unfold signDPoPSeq at hm
+    simp only at hm
+    rcases List.mem_cons.mp hm with e | hrest
+    · unfold signDPoP at e
+      cases hsk : signKey valid s kid' with
+      | error er => simp [hsk] at e
+      | ok k' =>
+        simp only [hsk] at e
+        injection e with e1 e2
+        injection e2 with e3
+        injection e3 with e4 e5
+        subst e1; subst e4; subst e5
+        obtain ⟨ref, h1, h2, h3, _⟩ := sign_only_by_reference valid s kid k hsk
+        refine ⟨hsk, ?_, ref, h1, h2, h3⟩
+        unfold dpopSignHeaders hget hput
+        rw [alGet_put]; simp
+    · exact ih _ hrest
+
+/-- non-vacuity + the seeded shape: a token that carries a PRIVATE jwk, signed for two different kids in a row -/
+example : signDPoPSeq (fun _ => true) { refs := [("a", ⟨"n1", "1"⟩), ("b", ⟨"n2", "1"⟩)], backend := [("n1", 1), ("n2", 2)], nextKey := 3 }
+    [("jwk", .jwk "*ecdsa.PrivateKey" "ecPriv")] ["a", "b"] =
+    [("a", .ok (1, [("jwk", pubJwk 1)])), ("b", .ok (2, [("jwk", pubJwk 2)]))] := by decide
+
 end Nuts.C03.Props
